@@ -7,9 +7,18 @@ the spec through the public constructors only.  After every operation
              instance attribute of every commonroad object reachable from the scenario and the planning-problem set, incl. which
              attributes each state has and the goal-lanelet tables with their dict type) must equal the snapshot before, and the
              XML and protobuf exports (date stamp erased) must be byte-identical to the exports made before the first operation;
-  * CORRESPONDENCE   the abstract view (attribute lists of all states with value tokens, predictions, lanelets, lights, goal
-             tables) and the abstract answer of the operation (incl. what both written files contain) are compared with the Lean
-             model CR.Frame run on the same operation sequence; agreement of the hidden cache flags is recorded, not judged.
+  * CORRESPONDENCE   the abstract view (attribute lists of all states with value tokens, predictions, lanelets with successor /
+             predecessor lists, obstacle registries and light references, lights, planning problems with initial state, goal
+             attribute names and goal tables) and the abstract answer of the operation (incl. what both written files contain)
+             are compared with the Lean model CR.Frame run on the same operation sequence; agreement of the hidden cache flags
+             is recorded, not judged.  Explicit model operations: occupancy / state / occupancy-set queries, scenario-level
+             occupancy and state queries, find_lanelet_by_position / _by_shape, traffic-light state, is_reached / goal_reached
+             on own and foreign states (decisions per goal state are parameters, evaluated on a third copy of the scenario),
+             ==, hash, copy.copy, deepcopy, pickle, obstacles_by_position_intervals, map_obstacles_to_lanelets /
+             filter_obstacles_in_network, Lanelet.get_obstacles, dynamic_obstacle_by_time_step, the two merge queries,
+             draw + render, XML and protobuf export.  The generic `reads` remains for str/repr, obstacles_by_role_and_type,
+             signal_state_at_time_step, final_time_step, states_in_time_interval, geometric lanelet queries, range queries,
+             lanelets_in_proximity, find_most_likely_lanelet_by_state and the copying network constructors.
   At the end of a case the operated scenario is compared with an untouched twin built from the same spec (snapshot and a
   fixed set of probing queries).
 """
@@ -50,13 +59,20 @@ ASSUMPTIONS = [
     "Lanelet.distance / inner_distance or TrafficLightCycle.cycle_init_timesteps (these are exercised as operations instead)",
     "the file date (XML attribute `date`, protobuf information.date) is erased before comparing exports",
     "an export that raises before and raises the same exception class after counts as the same export",
+    "model side: geometry and goal decisions are parameters of the model operations (evaluated on a third, untouched copy of the "
+    "scenario); every public attribute that no modelled operation looks into enters the model state as one content token "
+    "(CR.Frame.Extra), so the frame theorem speaks about it but cannot see inside it",
+    "the frame theorem C18_obs_frame is about the finite list of modelled operation kinds (28 step cases incl. the generic `reads`), "
+    "not about every conceivable read-only call of the library; for `reads` the proof covers any list of filled caches, the absence "
+    "of other side effects of those calls is decided by the oracle",
 ]
 TRUSTED = ["matplotlib Agg backend, lxml, protobuf runtime (used only to run the operations under test and to erase the date)"]
 REQUIRED_BUCKETS = ["op:reached_own", "traj:custom-full", "op:occ", "op:state", "op:occs", "op:find_pos", "op:light", "op:reached", "op:eq", "op:hash", "op:copy",
                     "op:deepcopy", "op:pickle", "op:draw", "op:write_xml", "op:write_pb", "op:occset",
                     "traj:custom-vvy", "traj:pm", "traj:ks", "pred:set", "shape:group",
                     "tbl:defaultdict-missing", "tbl:dict-missing", "tbl:none", "export:xml-ok", "export:pb-ok", "merge:ids-to-merge",
-                    "op:lanelet_q", "op:net_copy", "op:goal_reached", "op:find_shape", "op:states_at"]
+                    "op:lanelet_q", "op:net_copy", "op:goal_reached", "op:find_shape", "op:states_at", "op:by_interval", "op:map_obstacles",
+                    "lanelet_q:dyn_by_time", "lanelet_q:obstacles", "lanelet_q:merge_succ"]
 WORKERS = {"quick": 1, "thorough": 8}
 
 # ------------------------------------------------------------------------------------------------ generators
@@ -280,7 +296,8 @@ def gen_ops(r, spec, n=None, allow_draw=True):
     kinds = ["occ"] * 5 + ["state"] * 3 + ["occs"] * 3 + ["states_at", "occset", "occset", "find_pos", "find_pos", "find_shape", "proximity",
             "light", "light", "reached", "reached", "reached_own", "reached_own", "goal_reached", "eq", "eq", "hash", "hash", "copy", "deepcopy", "deepcopy", "pickle",
             "pickle", "write_xml", "write_xml", "write_pb", "write_pb", "write_pb", "str", "by_role", "by_interval", "signal", "lanelet_q",
-            "map_obstacles", "final_time", "traj_q", "net_copy", "lanelet_q", "most_likely"]
+            "map_obstacles", "final_time", "traj_q", "net_copy", "lanelet_q", "most_likely", "dyn_by_time", "dyn_by_time", "get_obstacles",
+            "map_obstacles", "by_interval"]
     if allow_draw:
         kinds += ["draw"]
     targets = ["scenario", "pps", "net"] + [["obstacle", i] for i in all_ids] + [["problem", p["id"]] for p in spec["problems"]]
@@ -373,14 +390,17 @@ def gen_ops(r, spec, n=None, allow_draw=True):
             if lids:
                 ops.append(["lanelet_q", r.choice(lids), r.choice(["contains", "interpolate", "orientation", "obstacles", "succ_range",
                                                                     "merge_succ", "merge_succ", "merge_pred", "pred_range", "dyn_by_time",
-                                                                    "polygon", "distance"]), pts()])
+                                                                    "dyn_by_time", "dyn_by_time", "obstacles", "polygon", "distance"]), pts()])
+        elif k in ("dyn_by_time", "get_obstacles"):
+            if lids:
+                ops.append(["lanelet_q", r.choice(lids), "dyn_by_time" if k == "dyn_by_time" else "obstacles", pts()])
         elif k == "net_copy":
             ops.append(["net_copy", r.choice(["network", "list", "shape"])])
         elif k == "most_likely":
             if lids:
                 ops.append(["most_likely", [[20.0 * r.randint(0, 2) + 3.0625, 2.0625, _f(r, -1, 1)]]])
         elif k == "map_obstacles":
-            ops.append(["map_obstacles", r.choice(["map", "filter"])])
+            ops.append(["map_obstacles", r.choice(["map", "map", "filter"]), r.choice(["static", "static", "all"])])
     if not ops:
         ops.append(["occs", 0, None])
     return ops
@@ -403,6 +423,8 @@ def gen_case(ctx, tiny=False, allow_draw=True, recipe=None):
             ops = gen_ops(r, spec, allow_draw=allow_draw)
             q = r.choice(["merge_succ", "merge_succ", "merge_pred"])
             ops.insert(r.randint(0, len(ops)), ["lanelet_q", l["id"] if q == "merge_succ" else l["succ"][0], q, [[1.0625, 1.0625]]])
+            ops.insert(r.randint(0, len(ops)), ["map_obstacles", "map", "static"])
+            ops.insert(r.randint(0, len(ops)), ["lanelet_q", where, "dyn_by_time", [[r.randint(0, 80) / 16.0, 1.0]]])
             return {"spec": spec, "ops": ops}
         if recipe == "vvy":
             d = [d for d in spec["dynamic"] if d["pred"] and d["pred"]["kind"] == "traj" and d["pred"]["cls"] == "custom-vvy"]
@@ -880,6 +902,7 @@ def run_op(ctx, sc, pps, op, twin):
         return hash(_target(sc, pps, op[1])) is not None
     if k == "copy":
         c = copy.copy(_target(sc, pps, op[1]))
+        _LAST["copy"] = c
         return type(c).__name__
     if k == "deepcopy":
         c = copy.deepcopy(_target(sc, pps, op[1]))
@@ -916,21 +939,22 @@ def run_op(ctx, sc, pps, op, twin):
         if q == "orientation":
             return float(l.orientation_by_position(np.array(op[3][0])))
         if q == "obstacles":
-            return [o.obstacle_id for o in l.get_obstacles(sc.static_obstacles, 0)]
+            t = int(op[3][0][0] * 16) % 3          # 0, 1 or 2, derived from the case
+            return [o.obstacle_id for o in l.get_obstacles(sc.static_obstacles + sc.dynamic_obstacles, t)]
         if q == "succ_range":
             return l.find_lanelet_successors_in_range(net, 45.0)
         if q == "merge_succ":
             from commonroad.scenario.lanelet import Lanelet
             ls, ids = Lanelet.all_lanelets_by_merging_successors_from_lanelet(l, net, 60.0)
-            return ids
+            return [ids, [_regs(m) for m in ls]]
         if q == "merge_pred":
             from commonroad.scenario.lanelet import Lanelet
             ls, ids = Lanelet.all_lanelets_by_merging_predecessors_from_lanelet(l, net, 60.0)
-            return ids
+            return [ids, [_regs(m) for m in ls]]
         if q == "pred_range":
             return l.find_lanelet_predecessors_in_range(net, 45.0)
         if q == "dyn_by_time":
-            return sorted(l.dynamic_obstacle_by_time_step(1))
+            return sorted(l.dynamic_obstacle_by_time_step(int(op[3][0][0] * 16) % 5))
         if q == "polygon":
             return len(l.polygon.vertices) + len(l.convert_to_polygon().vertices)
         if q == "distance":
@@ -949,11 +973,16 @@ def run_op(ctx, sc, pps, op, twin):
         sts = [KSState(time_step=0, position=np.array([a, b]), orientation=c) for a, b, c in op[1]]
         return [int(i) for i in net.find_most_likely_lanelet_by_state(sts)]
     if k == "map_obstacles":
-        obs = sc.static_obstacles
+        obs = sc.static_obstacles + (sc.dynamic_obstacles if len(op) > 2 and op[2] == "all" else [])
         if op[1] == "map":
             return {str(a): [o.obstacle_id for o in b] for a, b in net.map_obstacles_to_lanelets(obs).items()}
         return [o.obstacle_id for o in net.filter_obstacles_in_network(obs)]
     raise ValueError(f"unknown op {op}")
+
+
+def _regs(l):
+    return [sorted(int(x) for x in l.static_obstacles_on_lanelet),
+            sorted([int(t), sorted(int(x) for x in ids)] for t, ids in l.dynamic_obstacles_on_lanelet.items())]
 
 
 def do_draw(sc, pps, p):
@@ -994,6 +1023,11 @@ class Intern:
 
     def tok(self, v):
         k = json.dumps(snap(v), sort_keys=True)
+        return self.t.setdefault(k, len(self.t))
+
+    def tok_snap(self, sv):
+        """token of a value that is already a snapshot"""
+        k = json.dumps(sv, sort_keys=True)
         return self.t.setdefault(k, len(self.t))
 
 
@@ -1054,10 +1088,62 @@ def abs_pred(p, I):
             "states": [abs_state(x, I) for x in p.trajectory.state_list], "cache": "occupancy_set" in getattr(p, "__dict__", {})}
 
 
-def abstract(sc, pps, I, cells):
-    """the abstract state CR.Frame.St of the real objects (hidden cache flags read from the private slots)"""
+_MODELLED = {
+    "Scenario": {"lanelet_network", "dynamic_obstacles", "static_obstacles", "environment_obstacle", "phantom_obstacle"},
+    "obstacle": {"initial_state", "prediction", "obstacle_id"},
+    "prediction": {"trajectory", "occupancy_set"},
+    "trajectory": {"state_list", "final_state"},
+    "LaneletNetwork": {"lanelets", "traffic_signs", "traffic_lights", "intersections"},
+    "Lanelet": {"lanelet_id", "successor", "predecessor", "static_obstacles_on_lanelet", "dynamic_obstacles_on_lanelet", "traffic_lights"},
+    "TrafficSign": {"traffic_sign_id"},
+    "TrafficLight": {"traffic_light_id", "traffic_light_cycle", "active"},
+    "TrafficLightCycle": {"cycle_elements", "time_offset"},
+    "Intersection": {"intersection_id"},
+}
+
+
+def _attrs(d, modelled, I, prefix=""):
+    """[[name, token]] of the public attributes of a snapshotted object that the model does not hold in structured form"""
+    return [[prefix + k, I.tok_snap(v)] for k, v in d.items() if k not in modelled and k != "__class__"]
+
+
+def extras(S, I):
+    """CR.Frame.Extra of a snapshot: one content token per remaining public attribute"""
+    sd = S["scenario"]
+    nd = sd["lanelet_network"]
+    obstacles = []
+    for key in ("static_obstacles", "dynamic_obstacles", "phantom_obstacle", "environment_obstacle"):
+        for d in sd[key][1]:
+            a = _attrs(d, _MODELLED["obstacle"], I)
+            p = d.get("prediction")
+            if isinstance(p, dict):
+                a += _attrs(p, _MODELLED["prediction"], I, "prediction.")
+                t = p.get("trajectory")
+                if isinstance(t, dict):
+                    a += _attrs(t, _MODELLED["trajectory"], I, "prediction.trajectory.")
+            obstacles.append([d["obstacle_id"], a])
+    lights = []
+    for d in nd["traffic_lights"][1]:
+        a = _attrs(d, _MODELLED["TrafficLight"], I)
+        c = d.get("traffic_light_cycle")
+        if isinstance(c, dict):
+            a += _attrs(c, _MODELLED["TrafficLightCycle"], I, "traffic_light_cycle.")
+        lights.append([d["traffic_light_id"], a])
+    return {"scenario": _attrs(sd, _MODELLED["Scenario"], I), "network": _attrs(nd, _MODELLED["LaneletNetwork"], I),
+            "obstacles": obstacles,
+            "lanelets": [[d["lanelet_id"], _attrs(d, _MODELLED["Lanelet"], I)] for d in nd["lanelets"][1]],
+            "signs": [[d["traffic_sign_id"], _attrs(d, _MODELLED["TrafficSign"], I)] for d in nd["traffic_signs"][1]],
+            "lights": lights,
+            "intersections": [[d["intersection_id"], _attrs(d, _MODELLED["Intersection"], I)] for d in nd["intersections"][1]]}
+
+
+def abstract(sc, pps, I, cells, S=None):
+    """the abstract state CR.Frame.St of the real objects (hidden cache flags read from the private slots); S: a snapshot of
+    (sc, pps) taken at the same moment, if there is one (the extras are read from it)"""
     from commonroad.scenario.obstacle import DynamicObstacle, EnvironmentObstacle, PhantomObstacle, StaticObstacle
     from commonroad.scenario.traffic_light import TrafficLightState
+    if S is None:
+        S = snapshot(sc, pps)
     obs = []
     for o in sc.obstacles:
         if isinstance(o, StaticObstacle):
@@ -1073,16 +1159,21 @@ def abstract(sc, pps, I, cells):
     net = sc.lanelet_network
     tls = list(TrafficLightState)
     lights = [[l.traffic_light_id, [[tls.index(e.state), int(e.duration)] for e in l.traffic_light_cycle.cycle_elements],
-               int(l.traffic_light_cycle.time_offset), hasattr(l.traffic_light_cycle, "_cycle_init_timesteps")] for l in net.traffic_lights]
+               int(l.traffic_light_cycle.time_offset), hasattr(l.traffic_light_cycle, "_cycle_init_timesteps"), bool(l.active)]
+              for l in net.traffic_lights]
     problems = []
     for pid, p in pps.planning_problem_dict.items():
         t = p.goal.lanelets_of_goal_position
-        problems.append([pid, [g.has_value("position") for g in p.goal.state_list],
+        problems.append([pid, abs_state(p.initial_state, I), [[[n, I.tok(getattr(g, n))] for n in g.used_attributes] for g in p.goal.state_list],
                          None if t is None else ["defaultdict" if isinstance(t, collections.defaultdict) else "dict",
                                                  [[int(k), [int(x) for x in v]] for k, v in t.items()]]])
     return {"obstacles": obs,
-            "net": {"lanelets": [[l.lanelet_id, cells.get(l.lanelet_id, [])] for l in net.lanelets], "index": getattr(net, "_strtee", None) is not None},
-            "lights": lights, "problems": problems}
+            "net": {"lanelets": [[l.lanelet_id, cells.get(l.lanelet_id, []), [int(x) for x in l.successor], [int(x) for x in l.predecessor],
+                                  sorted(int(x) for x in l.static_obstacles_on_lanelet),
+                                  [[int(t), sorted(int(x) for x in ids)] for t, ids in l.dynamic_obstacles_on_lanelet.items()],
+                                  sorted(int(x) for x in l.traffic_lights)]
+                                 for l in net.lanelets], "index": getattr(net, "_strtee", None) is not None},
+            "lights": lights, "problems": problems, "extra": extras(S, I)}
 
 
 def _xml_tag(attr):
@@ -1094,11 +1185,15 @@ def _xml_tag(attr):
     return parts[0] + "".join(x[:1].upper() + x[1:] for x in parts[1:])
 
 
+_TL_VALUES = ["red", "yellow", "redYellow", "green", "inactive"]      # TrafficLightState values in declaration order
+
+
 def file_abs_xml(data):
     """what the model's FileAbs shows, read back from the XML bytes"""
     from lxml import etree
     root = etree.fromstring(data)
     obstacles, problems = [], []
+    problem_states, lanelets, lights, signs, intersections = [], [], [], [], []
 
     def tags(node):
         return [c.tag for c in node if c.tag != "time"]
@@ -1130,7 +1225,23 @@ def file_abs_xml(data):
                 pos = g.find("position")
                 goals.append([int(x.get("ref")) for x in pos.findall("lanelet")] if pos is not None else [])
             problems.append([int(node.get("id")), goals])
-    return {"obstacles": obstacles, "problems": problems}
+            problem_states.append([int(node.get("id")), tags(node.find("initialState")), [[c.tag for c in g] for g in node.findall("goalState")]])
+        elif node.tag == "lanelet":
+            lanelets.append([int(node.get("id")), [int(x.get("ref")) for x in node.findall("successor")],
+                             [int(x.get("ref")) for x in node.findall("predecessor")],
+                             sorted(int(x.get("ref")) for x in node.findall("trafficLightRef"))])
+        elif node.tag == "trafficLight":
+            cyc = node.find("cycle")
+            off = cyc.find("timeOffset") if cyc is not None else None
+            lights.append([int(node.get("id")),
+                           [[_TL_VALUES.index(e.find("color").text), int(e.find("duration").text)] for e in cyc.findall("cycleElement")],
+                           int(off.text) if off is not None else 0])
+        elif node.tag == "trafficSign":
+            signs.append(int(node.get("id")))
+        elif node.tag == "intersection":
+            intersections.append(int(node.get("id")))
+    return {"obstacles": obstacles, "problems": problems, "problem_states": problem_states, "lanelets": lanelets, "lights": lights,
+            "signs": signs, "intersections": intersections}
 
 
 def file_abs_pb(data):
@@ -1157,16 +1268,25 @@ def file_abs_pb(data):
     for o in m.environment_obstacles:
         obstacles.append([o.environment_obstacle_id, [], []])
     problems = [[p.planning_problem_id, [list(g.goal_position_lanelets) for g in p.goal_states]] for p in m.planning_problems]
-    return {"obstacles": obstacles, "problems": problems}
+    return {"obstacles": obstacles, "problems": problems,
+            "lanelets": [[l.lanelet_id, list(l.successors), list(l.predecessors)] for l in m.lanelets],
+            "lights": [l.traffic_light_id for l in m.traffic_lights], "signs": [x.traffic_sign_id for x in m.traffic_signs],
+            "intersections": [x.intersection_id for x in m.intersections]}
 
 
 def _model_file(f, fmt):
     """model FileAbs (attribute names) in the shape of file_abs_xml / file_abs_pb"""
     if fmt == "xml":
         return {"obstacles": [[i, [_xml_tag(n) for n in init], [[t, [_xml_tag(n) for n in a]] for t, a in states], occs]
-                              for i, init, states, occs in f["obstacles"]], "problems": f["problems"]}
+                              for i, init, states, occs in f["obstacles"]], "problems": f["problems"],
+                "problem_states": [[i, [_xml_tag(n) for n in init], [[_xml_tag(n) for n in g] for g in goals]]
+                                   for i, init, goals in f["problem_states"]] if f["problems"] else [],
+                "lanelets": [[i, su, pr, sorted(li)] for i, su, pr, li in f["lanelets"]],
+                "lights": [[i, es, off if off > 0 else 0] for i, es, off in f["lights"]],
+                "signs": f["signs"], "intersections": f["intersections"]}
     return {"obstacles": [[i, sorted(init), [[t, sorted(a)] for t, a in states]] for i, init, states, occs in f["obstacles"]],
-            "problems": f["problems"]}
+            "problems": f["problems"], "lanelets": [[i, su, pr] for i, su, pr, li in f["lanelets"]], "lights": [i for i, es, off in f["lights"]],
+            "signs": f["signs"], "intersections": f["intersections"]}
 
 
 class Spy:
@@ -1210,8 +1330,50 @@ class Spy:
         self.light = [by_cycle[i] for i in self._cycles if i in by_cycle]
 
 
-def model_op(op, P, spy):
-    """harness operation -> (model operation, how to compare its answer)"""
+def goal_decisions(pp, state):
+    """per goal state: does `state` reach a goal region made of (a copy of) that goal state alone?  (the decision itself is
+    C08's subject; here it is a parameter of the model)"""
+    from commonroad.planning.goal import GoalRegion
+    out = []
+    for g in pp.goal.state_list:
+        with warnings.catch_warnings():
+            warnings.simplefilter("ignore")
+            r = call(lambda: GoalRegion([copy.deepcopy(g)]).is_reached(copy.deepcopy(state)))
+        out.append(bool(r[1]) if r[0] == "ok" else {"err": r[1]})
+    return out
+
+
+def _target_json(t):
+    return t if isinstance(t, str) else [t[0], t[1]]
+
+
+def _intersects(lanelet, occ):
+    from commonroad.geometry.shape import ShapeGroup
+    sh = occ.shape
+    parts = sh.shapes if isinstance(sh, ShapeGroup) else [sh]
+    lp = lanelet.polygon.shapely_object
+    return any(lp.intersects(x.shapely_object) for x in parts)
+
+
+def _rel(twin_sc, lanelets, obstacles, t):
+    """(lanelet id, obstacle id) pairs whose polygons intersect at time t — evaluated on the untouched twin, directly with
+    shapely (the geometric predicate is a parameter of the model)"""
+    rel = []
+    for o in obstacles:
+        with warnings.catch_warnings():
+            warnings.simplefilter("ignore")
+            r = call(twin_sc.obstacle_by_id(o.obstacle_id).occupancy_at_time, t)
+        if r[0] != "ok" or r[1] is None:
+            continue
+        for l in lanelets:
+            if _intersects(twin_sc.lanelet_network.find_lanelet_by_id(l.lanelet_id), r[1]):
+                rel.append([l.lanelet_id, o.obstacle_id])
+    return rel
+
+
+def model_op(op, P, spy, env):
+    """harness operation -> (model operation, how to compare its answer).  env: sc, pps, twin, I (interning), S (shape tokens)"""
+    sc, pps, twin, I = env["sc"], env["pps"], env["twin"], env["I"]
     k = op[0]
     if k == "occ":
         return ["occ", op[1], op[2]], "occ"
@@ -1226,6 +1388,8 @@ def model_op(op, P, spy):
     if k == "find_pos":
         toks = [P.index(tuple(p)) for p in op[1]]
         return ["findPos", toks], "find_pos"
+    if k == "find_shape":
+        return ["findShape", env["S"][json.dumps(op[1])]], "sorted"
     if k == "light":
         return ["light", op[1], op[2]], "same"
     if k in ("deepcopy", "pickle") and op[1] in ("scenario", "net"):
@@ -1234,6 +1398,71 @@ def model_op(op, P, spy):
         return ["writeXml", op[1] == "full"], "file-xml"
     if k == "write_pb":
         return ["writePb", op[1] == "full"], "file-pb"
+    if k == "reached":
+        st = mk_state(op[2])
+        return ["reached", op[1], {"k": "foreign", "st": abs_state(st, I)}, goal_decisions(twin[1].planning_problem_dict[op[1]], st)], "same"
+    if k == "goal_reached":
+        sts = [mk_state(x) for x in op[3]]
+        pp = twin[1].planning_problem_dict[op[1]]
+        return ["goalReached", op[1], {"k": "foreign", "states": [abs_state(x, I) for x in sts]}, [goal_decisions(pp, x) for x in sts]], "reach"
+    if k == "reached_own":
+        pp = twin[1].planning_problem_dict[op[1]]
+        o, to = sc.obstacle_by_id(op[2]), twin[0].obstacle_by_id(op[2])
+        if op[3] == "initial":
+            return ["reached", op[1], {"k": "prob"}, goal_decisions(pp, pp.initial_state)], "same"
+        if op[3] == "trajectory":
+            return ["goalReached", op[1], {"k": "own", "oid": op[2]}, [goal_decisions(pp, x) for x in to.prediction.trajectory.state_list]], "reach"
+        x = to.state_at_time(op[4])
+        if x is None:
+            return ["reached", op[1], {"k": "traj", "oid": op[2], "i": 10 ** 6}, []], "same"
+        if x is to.initial_state:
+            return ["reached", op[1], {"k": "init", "oid": op[2]}, goal_decisions(pp, x)], "same"
+        i = next(i for i, y in enumerate(to.prediction.trajectory.state_list) if y is x)
+        return ["reached", op[1], {"k": "traj", "oid": op[2], "i": i}, goal_decisions(pp, x)], "same"
+    if k == "eq":
+        return ["eq", _target_json(op[1])], "eq"
+    if k == "hash":
+        return ["hash", _target_json(op[1])], "skip"
+    if k == "copy":
+        return ["shallowCopy", _target_json(op[1])], "copy" if op[1] == "scenario" else "skip"
+    if k == "by_interval":
+        from commonroad.common.util import Interval
+        ivx, ivy = Interval(*op[1]), Interval(*op[2])
+        inside = []
+        for o in twin[0].dynamic_obstacles:
+            with warnings.catch_warnings():
+                warnings.simplefilter("ignore")
+                r = call(o.occupancy_at_time, op[3])
+            if r[0] == "ok" and r[1] is not None:
+                c = getattr(r[1].shape, "center", None)
+                if c is None or (ivx.contains(c[0]) and ivy.contains(c[1])):
+                    inside.append(o.obstacle_id)
+        for o in twin[0].static_obstacles:
+            c = o.initial_state.position
+            if ivx.contains(c[0]) and ivy.contains(c[1]):
+                inside.append(o.obstacle_id)
+        return ["byIntervals", op[3], inside], "same"
+    if k == "map_obstacles":
+        obs = sc.static_obstacles + (sc.dynamic_obstacles if len(op) > 2 and op[2] == "all" else [])
+        return ["mapObstacles", [o.obstacle_id for o in obs], _rel(twin[0], sc.lanelet_network.lanelets, obs, 0)], "mapping-" + op[1]
+    if k == "lanelet_q" and op[2] == "obstacles":
+        t = int(op[3][0][0] * 16) % 3
+        obs = sc.static_obstacles + sc.dynamic_obstacles
+        l = sc.lanelet_network.find_lanelet_by_id(op[1])
+        return ["getObstacles", op[1], [o.obstacle_id for o in obs], t, _rel(twin[0], [l], obs, t)], "same"
+    if k == "lanelet_q" and op[2] == "dyn_by_time":
+        return ["dynByTime", op[1], int(op[3][0][0] * 16) % 5], "sorted"
+    if k == "lanelet_q" and op[2] in ("merge_succ", "merge_pred"):
+        ans = _LAST.get("answer")
+        paths = [p[1:] for p in ans[0]] if ans else []          # the routes depend on lanelet lengths: taken from the answer
+        return ["mergeFrom", op[1], paths], "regs"
+    if k == "draw":
+        from commonroad.geometry.shape import Rectangle
+        from commonroad.visualization.icons import supported_icons
+        p = op[1]
+        icon_ids = [o.obstacle_id for o in sc.dynamic_obstacles if o.obstacle_type in supported_icons() and isinstance(o.obstacle_shape, Rectangle)]
+        return ["draw", {"scenario": p["what"] in ("scenario", "both"), "tb": p["tb"], "te": p["te"], "occ": p["occ"], "icon": p["icon"],
+                         "iconIds": icon_ids, "history": 5 if p["hist"] else 0}], "skip"
     return ["reads", spy.occ, spy.light], "skip"
 
 
@@ -1254,7 +1483,7 @@ def _observable(view):
         if isinstance(p, dict) and p.get("k") == "traj":
             o = dict(o, pred={k: v for k, v in p.items() if k != "cache"})
         obs.append(o)
-    return {"obstacles": obs, "lanelets": view["net"]["lanelets"], "lights": [l[:3] for l in view["lights"]], "problems": view["problems"]}
+    return {"obstacles": obs, "lanelets": view["net"]["lanelets"], "lights": [l[:3] + l[4:] for l in view["lights"]], "problems": view["problems"], "extra": view.get("extra")}
 
 
 def _hidden(view):
@@ -1289,6 +1518,19 @@ def _compare_answer(mode, impl, model, amb, op):
         if amb:
             return None
         ok = v == [sorted(x) for x in m]
+    elif mode == "eq":
+        ok = v == [m, m, m]
+    elif mode == "reach":
+        ok = v == ([True, m] if m is not None else [False, -1])
+    elif mode == "mapping-map":
+        ok = v == {str(l): o for l, o in m}
+    elif mode == "mapping-filter":
+        flat = []
+        for _, o in m:
+            flat += [x for x in o if x not in flat]
+        ok = v == flat
+    elif mode == "regs":
+        ok = v[1] == [[sorted(st), sorted([t, sorted(ids)] for t, ids in dy)] for st, dy in m]
     elif mode == "copy":
         ok = _observable(v) == _observable(m)
         if not ok:
@@ -1322,8 +1564,20 @@ def run_case(ctx, case, with_model=True, old_pb=False):
                 if tuple(q) not in P:
                     P.append(tuple(q))
     cells, ambiguous = point_cells(spec, P)
+    with warnings.catch_warnings():
+        warnings.simplefilter("ignore")
+        aux = build(spec)        # a third copy, used only to evaluate the geometric / decision parameters of model operations
+    S = {}
+    for op in ops:
+        if op[0] == "find_shape" and json.dumps(op[1]) not in S:
+            tok = len(P) + len(S)
+            S[json.dumps(op[1])] = tok
+            so = mk_shape(op[1]).shapely_object
+            for l in aux[0].lanelet_network.lanelets:
+                if l.polygon.shapely_object.intersects(so):
+                    cells[l.lanelet_id].append(tok)
+    env = {"sc": sc, "pps": pps, "twin": aux, "I": I, "S": S}
     steps = []          # (model op, compare mode, impl answer, impl abstract view afterwards, ambiguous?, harness op)
-    st0 = abstract(sc, pps, I, cells)
     nfail0 = len(ctx.failures)
 
     def file_answer(res, fmt, mode):
@@ -1332,14 +1586,15 @@ def run_case(ctx, case, with_model=True, old_pb=False):
         return ("ok", _file_abs(res[1], fmt))
 
     s0 = snapshot(sc, pps)
+    st0 = abstract(sc, pps, I, cells, s0)
     # reference exports; an export is itself a read-only operation, so it is framed by snapshots as well
     ref = {}
     for fmt in ("xml", "pb"):
         res = export(ctx, sc, pps, fmt)
         ref[fmt] = _digest(res)
-        steps.append((["writeXml" if fmt == "xml" else "writePb", True], "file-" + fmt, file_answer(res, fmt, "full"),
-                      abstract(sc, pps, I, cells), False, [f"write_{fmt}", "full"]))
         s1 = snapshot(sc, pps)
+        steps.append((["writeXml" if fmt == "xml" else "writePb", True], "file-" + fmt, file_answer(res, fmt, "full"),
+                      abstract(sc, pps, I, cells, s1), False, [f"write_{fmt}", "full"]))
         d = first_diff(s0, s1)
         if d:
             ctx.fail(f"C18/write_{fmt}/changed:{d}", f"writing the {fmt} file changed {d}", {"spec": spec, "ops": [[f"write_{fmt}", "full"]]})
@@ -1357,7 +1612,8 @@ def run_case(ctx, case, with_model=True, old_pb=False):
             res = call(run_op, ctx, sc, pps, op, twin)
         if res[0] == "err":
             ctx.tag("op-raises:" + op[0] + ":" + res[1])
-        mop, mode = model_op(op, P, spy)
+        _LAST["answer"] = res[1] if res[0] == "ok" else None
+        mop, mode = model_op(op, P, spy, env)
         ans = res
         if res[0] == "ok":
             if mode == "copy":
@@ -1371,25 +1627,29 @@ def run_case(ctx, case, with_model=True, old_pb=False):
         amb = op[0] == "find_pos" and any(P.index(tuple(q)) in ambiguous for q in op[1])
         if amb:
             ctx.excluded += 1
-        steps.append((mop, mode, ans, abstract(sc, pps, I, cells), amb, op))
         s1 = snapshot(sc, pps)
+        steps.append((mop, mode, ans, abstract(sc, pps, I, cells, s1), amb, op))
         d = first_diff(s0, s1)
         sub = {"spec": spec, "ops": ops[:i + 1]}
         if d:
             ctx.fail(f"C18/{_opkey(op)}/changed:{d}", f"operation {op[:3]} changed the observable attribute {d}"
                      + (f" (it raised {res[2]})" if res[0] == "err" else ""), sub)
             s0 = s1
+        pending = []
         for fmt in ("xml", "pb"):
             res = export(ctx, sc, pps, fmt)
             e = _digest(res)
-            steps.append((["writeXml" if fmt == "xml" else "writePb", True], "file-" + fmt, file_answer(res, fmt, "full"),
-                          abstract(sc, pps, I, cells), False, [f"write_{fmt}", "full"]))
+            pending.append((["writeXml" if fmt == "xml" else "writePb", True], "file-" + fmt, file_answer(res, fmt, "full"), fmt))
             if e != ref[fmt]:
                 ctx.fail(f"C18/{_opkey(op)}/export-differs:{fmt}", f"the {fmt} export after operation {op[:3]} differs from the export "
                          f"before ({ref[fmt]} -> {e})", sub)
                 ref[fmt] = e
-        # (the two exports just made are read-only operations too; each writer was framed on its own at the start of the case)
+        # (the two exports just made are read-only operations too; each writer was framed on its own at the start of the case;
+        #  one snapshot and one state view after both)
         s2 = snapshot(sc, pps)
+        view_w = abstract(sc, pps, I, cells, s2)
+        for mop_w, mode_w, ans_w, fmt in pending:
+            steps.append((mop_w, mode_w, ans_w, view_w, False, [f"write_{fmt}", "full"]))
         d = first_diff(s0, s2)
         if d:
             ctx.fail(f"C18/write_after_{_opkey(op)}/changed:{d}", f"writing the XML and protobuf files after {op[:3]} changed {d}",
@@ -1417,11 +1677,21 @@ def run_case(ctx, case, with_model=True, old_pb=False):
         args["old_pb"] = True
     mres = ctx.driver.ask("C18", "trace", args)
     impl_l, model_l, what = [], [], ""
+    hid_seen = False
+    if mres and mres[-1]["st"].get("extra") != st0["extra"]:
+        ctx.compare(case, st0["extra"], mres[-1]["st"].get("extra"), "the model changed Extra")
     for (mop, mode, ans, view, amb, op), mr in zip(steps, mres):
+        mr["st"]["extra"] = st0["extra"]       # sent with the last step only, compared with the initial one just above
         bad = _compare_answer(mode, ans, mr["out"], amb, op)
         # the observable part of the state view is compared strictly; where the hidden cache flags sit (private slots, their
         # names are an implementation detail) is only recorded: a rewrite that caches differently is not a disagreement
-        ctx.tag("hidden-cache-flags:" + ("agree" if _hidden(view) == _hidden(mr["st"]) else "differ"))
+        hid_ok = _hidden(view) == _hidden(mr["st"])
+        ctx.tag("hidden-cache-flags:" + ("agree" if hid_ok else "differ"))
+        if not hid_ok and not hid_seen:
+            hid_seen = True
+            ctx.tag("hidden-cache-flags:first-differ-at:" + op[0])
+            if os.environ.get("C18_DEBUG_HIDDEN"):
+                print("HIDDEN", op, _hidden(view), _hidden(mr["st"]), ans[:2] if ans[0] == "err" else "ok", json.dumps(mop)[:200])
         vd = first_diff(_observable(view), _observable(mr["st"]))
         if (bad or vd) and not what:
             what = f"step {len(impl_l)} {op[:3]} (model op {json.dumps(mop)[:80]}): " + (f"state view differs at {vd}; " if vd else "") + (bad or "")
